@@ -109,6 +109,10 @@ func (o *objectGoMapReflect) toValue(val Value, throw bool) (reflect.Value, bool
 }
 
 func (o *objectGoMapReflect) _put(key reflect.Value, val Value, throw bool) bool {
+	if key.IsValid() && o.fieldsValue.IsNil() {
+		o.val.runtime.typeErrorResult(throw, "Cannot set property %v of a nil map", key)
+		return false
+	}
 	if key.IsValid() {
 		if o.extensible || o.fieldsValue.MapIndex(key).IsValid() {
 			v, ok := o.toValue(val, throw)
